@@ -220,6 +220,26 @@ def generators(ctx):
     ctx.floor('COUNT-ORDER', n, 28)
 
 
+def defaults(ctx):
+    """new atoms without given values: interstitial type 1 / properties zero; dumbbell and substitutional copy the site atom's values"""
+    POS = symarray('r', (3,), real=True)
+    DB = symarray('d', (3,), real=True)
+    system = base_system()
+    before = {k: a.copy() for k, a in system.atoms.view.items()}
+    paths, _, _ = run_gen(ctx, 'interstitial', system, [], dict(pos=POS))
+    res, _r = _outcome(paths)
+    ok = res is not None and int(res.atoms.view['atype'][-1]) == 1 and is_zero(sp.sympify(res.atoms.view['charge'][-1]))
+    ctx.ob('DEFECT-ATOM', PT + '::interstitial', 'without given values the interstitial has type 1 and zero-valued properties', bool(ok), node=ctx.fn(PT, 'interstitial'), key='defaults interstitial')
+    paths, _, _ = run_gen(ctx, 'dumbbell', base_system(), [], dict(ptd_id=2, db_vect=DB))
+    res, _r = _outcome(paths)
+    ok = res is not None and res.atoms.view['charge'][-1] == before['charge'][2] and int(res.atoms.view['atype'][-1]) == int(before['atype'][2])
+    ctx.ob('DEFECT-ATOM', PT + '::dumbbell', 'without given values the second dumbbell atom copies the site atom', bool(ok), node=ctx.fn(PT, 'dumbbell'), key='defaults dumbbell')
+    paths, _, _ = run_gen(ctx, 'substitutional', base_system(), [], dict(ptd_id=1, atype=3))
+    res, _r = _outcome(paths)
+    ok = res is not None and res.atoms.view['charge'][-1] == before['charge'][1] and int(res.atoms.view['atype'][-1]) == 3
+    ctx.ob('DEFECT-ATOM', PT + '::substitutional', 'without given values the substituted atom keeps its property values and only changes type', bool(ok), node=ctx.fn(PT, 'substitutional'), key='defaults substitutional')
+
+
 def refusals(ctx):
     POS = symarray('r', (3,), real=True)
     DB = symarray('d', (3,), real=True)
@@ -281,4 +301,4 @@ def run(ctx):
     ctx.explanation = ('C15: the four point-defect generators and the dispatcher are evaluated by the analyser on a model system (4 atoms, symbolic positions and property values, '
                        'with and without a pre-existing old_id); the site lookup is scripted (no / one / two atoms within tolerance). Result rows, old_id, defect-atom values, refusals and '
                        'the untouched input are compared with the documented behaviour for selection by index, negative index, Cartesian and box-relative position. Not decided: the numerical distance test.')
-    ctx.run_rules([generators, refusals, dispatch])
+    ctx.run_rules([generators, defaults, refusals, dispatch])
